@@ -3,7 +3,7 @@ from ..explore import bfs
 
 LEVEL = 'model_checking'
 
-QUICK = [('U2', None), ('U3', None), ('U3d', None), ('U4l', 3)]
+QUICK = [('U2', None), ('U3', None), ('U3dq', None), ('U4l', 3)]
 THOROUGH = [('U2', None), ('U3', None), ('U3d', None), ('U4l', None), ('U3c', None), ('U4', None), ('U4d', None)]
 
 RULES = {
